@@ -82,3 +82,17 @@ Qed.
 
 Definition option_eqb {A} (eqb : A -> A -> bool) (a b : option A) : bool :=
   match a, b with Some x, Some y => eqb x y | None, None => true | _, _ => false end.
+
+(* Stateful cases: fold a per-step checker over the recorded steps. The per-step function returns the
+   next model state and a kind (0 = agrees, 1 = model differs from the implementation but the observation
+   satisfies the property, 2 = the observation violates the property). The case code is
+   step_index * 4 + kind of the first non-zero step (0 = whole case fine). *)
+Fixpoint scan {S X} (f : S -> X -> S * nat) (s : S) (xs : list X) (i : nat) : nat :=
+  match xs with
+  | [] => 0
+  | x :: t => let '(s', k) := f s x in
+              if Nat.eqb k 0 then scan f s' t (S i) else i * 4 + k
+  end.
+
+Definition kind_of (model_agrees property_holds : bool) : nat :=
+  if negb property_holds then 2 else if negb model_agrees then 1 else 0.
